@@ -5,7 +5,7 @@ T = "GeomV.C12."
 CFG = {
     "id": "C12",
     "lean_modules": ["GeomV.C12.Proofs", "GeomV.C12.ProofsExt", "GeomV.C12.Negations", "GeomV.C12.ProofsFloat",
-                     "GeomV.C12.ProofsFloatTree", "GeomV.C12.ProofsRne", "GeomV.C12.NegationsFloat", "GeomV.C12.ProofsFloatKnn", "GeomV.C12.ProofsSort", "GeomV.C12.NegationsFused"] + c11_tie.C12_TIES,
+                     "GeomV.C12.ProofsFloatTree", "GeomV.C12.ProofsRne", "GeomV.C12.NegationsFloat", "GeomV.C12.ProofsFloatKnn", "GeomV.C12.ProofsSort", "GeomV.C12.NegationsFused", "GeomV.C12.ProofsLit"] + c11_tie.C12_TIES,
     "lean_dirs": ["C11", "C12"],
     "exe": "geomv_c12",
     "go_cmd": "c12",
@@ -36,6 +36,9 @@ CFG = {
         # phase 4 (NegationsFused): geom.go compiled with fused multiply-add (Go spec; arm64, ppc64le) rounds minDist and minMaxDist
         # differently: kernel-evaluated witness under fl2 (MINMAXDIST 7 < MINDIST 8 of the same point box, both leaves pruned, nil panic)
         "C12_fused_unsound", "fused_id",
+        # phase 4 (ProofsLit): the literal recursion of nearestNeighbor (sub-call RETURNS (subNearest, dist), the caller keeps it
+        # iff dist < d) = the model nnNode that threads the running best
+        "nnNode_improves", "C12_nnNode_lit", "C12_nn_lit",
         # the cancellation defect (S - d1*d1 + d2*d2) as a kernel-evaluated negation on a two-binade floating format
         "Rounding.fl2", "C12_old_cancellation_unsound",
         # T1: minDist / minMaxDist regenerated from index/rtree/geom.go of the tree under test = the model's
@@ -83,8 +86,48 @@ CFG = {
 }
 
 
+FMA_GUARD = False   # switched on together with the fix that converts every product explicitly (float64(d * d))
+
+
+def fma_guard(check):
+    """The float-level theorems (C12_nn_float, C12_knn_float, fMinDist_le_fMinMaxDist) model `fl` after EVERY -, *, +.  The Go
+    specification lets a compiler fuse x*y + z into one FMA unless the product is converted explicitly; amd64 (where the
+    cases run) does not fuse, arm64 does.  Cross-compile the harness for arm64 against the tree under test and look at the
+    machine code of index/rtree.minDist / minMaxDist: a fused multiply-add there breaks the tie (C12_fused_unsound)."""
+    import subprocess, shutil
+    import vcheck
+    out = os.path.join(check.rundir, "c12.arm64")
+    args = ["go", "build", "-tags", "verif", "-o", out]
+    if vcheck.REPO != "/repo":
+        mod = open(os.path.join(vcheck.HARNESS, "go.mod")).read().replace("=> /repo", "=> " + vcheck.REPO)
+        mf = os.path.join(check.rundir, "alt-arm64.mod")
+        open(mf, "w").write(mod)
+        shutil.copy(os.path.join(vcheck.HARNESS, "go.sum"), os.path.join(check.rundir, "alt-arm64.sum"))
+        args += ["-modfile", mf]
+    args.append("./cmd/c12")
+    env = dict(vcheck.GOENV, GOARCH="arm64", GOOS="linux")
+    with vcheck.Lock("go"):
+        p = subprocess.run(args, cwd=vcheck.HARNESS, env=env, stdout=subprocess.PIPE, stderr=subprocess.STDOUT, text=True)
+    if p.returncode != 0:
+        check.broken.append("FMA guard: the harness does not cross-compile for arm64: " + p.stdout.strip()[-300:])
+        return
+    d = subprocess.run(["go", "tool", "objdump", "-s", r"index/rtree\.(minDist|minMaxDist)$", out], env=vcheck.GOENV,
+                       stdout=subprocess.PIPE, stderr=subprocess.STDOUT, text=True)
+    lines = d.stdout.splitlines()
+    if d.returncode != 0 or not any("FMULD" in l for l in lines):
+        check.broken.append("FMA guard: no arm64 code found for index/rtree.minDist/minMaxDist: " + d.stdout.strip()[-200:])
+        return
+    fused = [l.split("\t")[0].strip() for l in lines if any(m in l for m in ("FMADDD", "FMSUBD", "FNMADDD", "FNMSUBD"))]
+    if fused:
+        check.broken.append("FMA guard: the arm64 code of index/rtree minDist/minMaxDist contains %d fused multiply-add(s) (%s): "
+                            "a product is added without an explicit float64(...) conversion, so minDist and minMaxDist round "
+                            "differently there (C12_fused_unsound: pruneEntries can drop every branch)" % (len(fused), ", ".join(sorted(set(fused)))[:200]))
+
+
 def pregen(check):
     c11_tie.pregen(check, c11_tie.C12_TIES)
+    if FMA_GUARD:
+        fma_guard(check)
 
 
 CFG["pregen"] = pregen
